@@ -6,7 +6,7 @@
    present and absent target, no target at all). *)
 From Coq Require Import List ZArith Bool Arith Lia.
 From SC Require Import Base.Res Base.PyList Inst.Heap Inst.ClassTable Inst.Model Inst.Canon
-  Inst.Abs Inst.SpecHelpers Inst.ElemProofs Inst.Framed Inst.RefineProofs Inst.CopyProofs Inst.ElemRefine.
+  Inst.Abs Inst.SpecHelpers Inst.ElemProofs Inst.Framed Inst.RefineProofs Inst.CopyProofs Inst.ElemRefineDep Inst.ElemRefine.
 Import ListNotations.
 Open Scope nat_scope.
 
@@ -107,7 +107,7 @@ Section ElemFrame.
   Hypothesis Ha : lookup_attr k a = Some sp.
   Hypothesis Hd : NoDup (map fst d).
   Hypothesis Hfz : c_frozen k = false.
-  Hypothesis Hni : no_inval k.
+  Hypothesis Hni : no_dep k a.
   Hypothesis Hcoll : ty_is_collection (a_ty sp) = true.
   Hypothesis Hfld : assoc a d = Some (VRef lc).
   Hypothesis Hlc : nth_error (heap s) lc = Some o.
@@ -153,7 +153,7 @@ Section ElemFrame.
     unfold read_attr. rewrite fr_cur_abs. cbn [sbind]. rewrite Hcoll.
     unfold coll_of. rewrite fr_acur_not_missing. cbn [sbind]. rewrite Hr.
     destruct r as [c'| | |]; cbn [sbind]; auto.
-    unfold invalidate, cls_for. rewrite Hc. cbn [sbind]. rewrite invalidatees_none by auto. reflexivity.
+    unfold invalidate, cls_for. rewrite Hc. cbn [sbind]. rewrite invalidatees_nodep by auto. reflexivity.
   Qed.
 
   (* the model: locating the attribute, building the mutator, storing the container back *)
@@ -175,7 +175,7 @@ Section ElemFrame.
     mutate_attr ct (exec ct XFUEL) l a (VRef lc) true false false false s2 = (Ok (VRef l), s2).
   Proof.
     intro Hl2.
-    rewrite (mutate_attr_inplace_run ct (exec ct XFUEL) l a (VRef lc) false s2 c d k Hl2 Hc Hfz eq_refl Hni).
+    rewrite (mutate_attr_inplace_run_nodep ct (exec ct XFUEL) l a (VRef lc) false s2 c d k Hl2 Hc Hfz eq_refl Hni).
     rewrite (assoc_set_same a (VRef lc) d Hfld Hd). now rewrite (upd_same s2 l _ Hl2).
   Qed.
 
@@ -279,7 +279,7 @@ Section WithoutItemList.
   Hypothesis Ha : lookup_attr k a = Some sp.
   Hypothesis Hd : NoDup (map fst d).
   Hypothesis Hfz : c_frozen k = false.
-  Hypothesis Hni : no_inval k.
+  Hypothesis Hni : no_dep k a.
   Hypothesis Hty : a_ty sp = TList ity.
   Hypothesis Hdepth : ty_depth ity < FUEL.
   Hypothesis Hfld : assoc a d = Some (VRef lc).
